@@ -208,9 +208,11 @@ def main():
             if s.verdict is not None:
                 continue
             k = s.tkey
+            # the patterns were written against the real closure numbers; the frozen keys carry none
+            raw = s.fn.qual + k[len(panics.anon_closures(s.fn.qual)):]
             hit = None
             for rx, why, backing in A:
-                if rx.search(k):
+                if rx.search(raw) or rx.search(k):
                     hit = (why, backing)
                     break
             if hit is None:
